@@ -438,7 +438,7 @@ func boundarySizes() []int {
 }
 
 func runAll(c *run.Ctx) {
-	reps := c.N(8, 40)
+	reps := c.N(20, 80)
 	for _, layout := range layouts {
 		for n := 0; n <= 40; n++ {
 			for rep := 0; rep < reps; rep++ {
